@@ -1694,6 +1694,35 @@ func elementAliasHazard(p *Program, fn *ssa.Function) (int, []Finding) {
 				continue
 			}
 			n++
+			// an unexported helper every caller of which hands it the address of a local variable
+			// (foldRange(bottom, top, &r, ...) with r a by-value parameter of the caller) cannot
+			// receive a pointer into the slice
+			if sites, closed := callSitesInPkg(fn); closed && len(sites) > 0 {
+				ai := -1
+				for i, pa := range fn.Params {
+					if pa == a {
+						ai = i
+					}
+				}
+				allLocal := ai >= 0
+				for _, cs := range sites {
+					args := cs.Common().Args
+					if ai >= len(args) {
+						allLocal = false
+						break
+					}
+					switch addrBase(args[ai]).(type) {
+					case *ssa.Alloc, *ssa.FreeVar:
+						// a local variable, or a variable captured by a closure (captured by reference:
+						// the free variable *is* the variable's address)
+					default:
+						allLocal = false
+					}
+				}
+				if allLocal {
+					continue
+				}
+			}
 			// addresses of elements of s
 			elem := map[ssa.Value]bool{}
 			base := map[ssa.Value]bool{s: true}
